@@ -159,6 +159,14 @@ impl<T: RangeNumber> Range<T> {
         }
     }
 
+    fn contains_fallback(&self) -> bool {
+        match self {
+            Range::Fallback => true,
+            Range::Multiple(ranges) => ranges.iter().any(Self::contains_fallback),
+            _ => false,
+        }
+    }
+
     fn flatten(self) -> Self {
         let Range::Multiple(ranges) = self else {
             return self;
@@ -337,12 +345,13 @@ impl Ranges {
 
     fn check_de_inner<T: RangeNumber>(ranges: &[(Range<T>, ParsedValue)]) -> (bool, usize, bool) {
         // easy to avoid compile warning, check if a fallback is not at the end position
-        let invalid_fallback = ranges.iter().rev().skip(1).any(|(range, _)| match range {
-            Range::Fallback => true,
-            // "n | _" is kind of pointless but still supported, but still check if a fallback is put outside the end
-            Range::Multiple(multi) => multi.iter().any(|range| matches!(range, Range::Fallback)),
-            _ => false,
-        });
+        // "n | _" is kind of pointless but still supported, but still check if a fallback is put outside the end,
+        // at any depth of nested alternatives (`[["_", 1], 2]`).
+        let invalid_fallback = ranges
+            .iter()
+            .rev()
+            .skip(1)
+            .any(|(range, _)| range.contains_fallback());
         // also check if multiple fallbacks exist
         let fallback_count = ranges
             .iter()
